@@ -97,7 +97,11 @@ class Layout(object):
                            'up2', 'self',
                            'sib.tex', b, b + '2', b + '-x', b + '.tex', 'other', 'secret', 'backin', 'tosub', 'd', '']
         self.base_spellings = [self.base, self.base + '/', os.path.join(root, 'other', 'backin'),
-                               os.path.join(root, b + '2', '..', b), os.path.join(self.base, 'sub', '..')]
+                               os.path.join(root, b + '2', '..', b), os.path.join(self.base, 'sub', '..'),
+                               # a directory symlink followed by '..': the real directory is the base although collapsing
+                               # the spelling textually names another directory (<root>/other, which holds files)
+                               os.path.join(root, 'other', 'tosub', '..'),
+                               os.path.join(self.base, 'lnkdir', '..', b)]
 
     def write(self, rel, kind):
         self.counter += 1
